@@ -50,4 +50,44 @@ theorem emitted_frames_accepted (body : Bytes) : crcMatches (withCrc body) = tru
   unfold withCrc crcTrailer
   exact (crcMatches_iff body _ _).2 ⟨rfl, rfl⟩
 
+/-- (3) the third CRC-verifying entry point, `AsRTUErrorPacketWithCRC` (the recogniser both RTU clients use while they
+read): five bytes are an exception reply if and only if the function byte carries the error bit AND the last two
+bytes are the CRC of the first three, low byte first. With any other trailer - also the CRC with its two bytes
+exchanged - the bytes are not an exception. -/
+theorem exception_withCRC_iff (u f c l h : UInt8) (sp : Bytes) (e : PErr) :
+    asRTUErrorPacketWithCRC ⟨[u, f, c, l, h], sp⟩ = .ok (some e) ↔
+      (l = lo8 (crc16 [u, f, c]) ∧ h = hi8 (crc16 [u, f, c]) ∧ f &&& 128 ≠ 0 ∧ e = .excR u (f - 128) c) := by
+  have hm := crcMatches_iff [u, f, c] l h
+  simp only [List.cons_append, List.nil_append] at hm
+  have hx : asRTUErrorPacket ⟨[u, f, c, l, h], sp⟩ =
+      if f &&& 128 ≠ 0 then .ok (some (.excR u (f - 128) c)) else .ok none := by
+    unfold asRTUErrorPacket
+    simp [Slice.idx, Res.bind]
+  unfold asRTUErrorPacketWithCRC
+  simp only [List.length_cons, List.length_nil, ne_eq, not_true_eq_false, if_false]
+  by_cases hc : crcMatches [u, f, c, l, h] = true
+  · have hlh := hm.1 hc
+    simp only [hc, Bool.not_true, Bool.false_eq_true, if_false, hx]
+    by_cases hf : f &&& 128 = 0
+    · simp [hf]
+    · simp only [ne_eq, hf, not_false_eq_true, if_true, Res.ok.injEq, Option.some.injEq]
+      constructor
+      · intro he; exact ⟨hlh.1, hlh.2, trivial, he.symm⟩
+      · intro he; exact he.2.2.2.symm
+  · have : ¬ (l = lo8 (crc16 [u, f, c]) ∧ h = hi8 (crc16 [u, f, c])) := fun x => hc (hm.2 x)
+    simp only [hc, Bool.not_false, if_true]
+    constructor
+    · intro he; cases he
+    · intro he; exact absurd ⟨he.1, he.2.1⟩ this
+
+/-- anything that is not five bytes long is not an exception reply for this recogniser -/
+theorem exception_withCRC_length (s : Slice) (h : s.vis.length ≠ 5) : asRTUErrorPacketWithCRC s = .ok none := by
+  unfold asRTUErrorPacketWithCRC
+  simp [h]
+
+example : asRTUErrorPacketWithCRC ⟨withCrc [0x0a, 0x83, 0x02], []⟩ = .ok (some (.excR 0x0a 3 2)) := by decide +kernel
+/-- the same frame with the two CRC bytes exchanged -/
+example : asRTUErrorPacketWithCRC ⟨[0x0a, 0x83, 0x02, 177, 51], []⟩ = .ok (some (.excR 0x0a 3 2)) ∧
+    asRTUErrorPacketWithCRC ⟨[0x0a, 0x83, 0x02, 51, 177], []⟩ = .ok none := by decide +kernel
+
 end Modbus.Properties.C03
